@@ -43,7 +43,7 @@ def run(ctx):
     sample = pairs if not quick else rng.sample(pairs, min(150, len(pairs)))
     traces = []
     for k, st in enumerate(sample):
-        st = dict(st, via=rng.choice(['same', 'inplace_other', 'copy_other']))     # how phase-locked chemicals are made (driver)
+        st = dict(st, via=rng.choice(['same', 'inplace_other', 'copy_other', 'setters', 'setters']))     # how phase-locked chemicals are made (driver)
         w = df.World(st['par'], st['mix'], st['via'])
         steps = []
         for op, a in queries(rng, st['par'], 12 if quick else 30):
